@@ -122,6 +122,64 @@ def closed_ownership_scan(section):
         section["obligations"].append(rec)
 
 
+def closed_coverage_scan(section, ctx):
+    """closed obligation per hand-written module: every method of every class is under contract, or is reached from a function under contract as
+    `self.m(..)` / `Class.m(..)` (then it is a helper whose body is part of that caller's obligations). A method that is neither is behaviour nobody
+    decides: the library may call it by name (an overridden `doprint`, a new `enterX` / `exitX` callback of the parse-tree walker, a dunder method)
+    and the library MODEL of that name would silently keep describing the base class. Reported as unreachable-by-verifier (the run is then
+    undecided unless the bounded layer finds a failing input), never as a violation by itself."""
+    by_mod = {}
+    for c in ctx.contracts.values():
+        by_mod.setdefault(os.path.basename(c.sidecar.module), set()).add(c.qual)
+    for rel in ("auxiliary.py", "listener.py", "program.py", "utils.py", "error.py", "__init__.py"):
+        try:
+            tree = ast.parse(open(os.path.join(C.PKG, rel), newline=None).read())
+        except (OSError, SyntaxError):
+            continue                                   # reported by the ownership scan
+        quals = by_mod.get(rel, set())
+        funcs = {}                                      # qual -> FunctionDef
+        dups = []
+        for n in tree.body:
+            if isinstance(n, ast.FunctionDef):
+                funcs[n.name] = n
+            elif isinstance(n, ast.ClassDef):
+                for b in n.body:
+                    if isinstance(b, ast.FunctionDef):
+                        if n.name + "." + b.name in funcs:
+                            dups.append("%s.%s (second definition at line %d: setter / overload)" % (n.name, b.name, b.lineno))
+                        funcs[n.name + "." + b.name] = b
+        covered = {q for q in funcs if q in quals}
+        changed = True
+        while changed:
+            changed = False
+            for q in list(covered):
+                cls = q.split(".")[0] if "." in q else None
+                for m in ast.walk(funcs[q]):
+                    tgt = None
+                    if isinstance(m, ast.Call) and isinstance(m.func, ast.Name) and m.func.id in funcs:
+                        tgt = m.func.id
+                    elif isinstance(m, ast.Attribute) and isinstance(m.value, ast.Name):
+                        if m.value.id in ("self", "cls") and cls and (cls + "." + m.attr) in funcs:
+                            tgt = cls + "." + m.attr
+                        elif (m.value.id + "." + m.attr) in funcs:
+                            tgt = m.value.id + "." + m.attr
+                    elif isinstance(m, ast.Name) and m.id in funcs and isinstance(m.ctx, ast.Load):
+                        tgt = m.id                      # a helper handed on as a value (key=..., node_match=...)
+                    if tgt and tgt not in covered:
+                        covered.add(tgt)
+                        changed = True
+        loose = sorted(q for q in funcs if "." in q and q not in covered) + dups
+        rec = {"name": "coverage/every-method-decided:%s" % rel, "status": C.DISCHARGED if not loose else C.UNREACHABLE, "backend": "closed-eval", "time_s": 0,
+               "goal": "every method of every class of blackbird/%s is under contract or is a helper reached from a function under contract "
+                       "(%d functions and methods, %d under contract)" % (rel, len(funcs), len([q for q in funcs if q in quals])),
+               "props": SCAN_PROPS, "witness_families": ["spec_conformance", "roundtrip", "load_denote"]}
+        if loose:
+            rec["detail"] = "no contract and not reached from a function under contract: %s -- the library can call a method by name (overrides, " \
+                            "walker callbacks, dunder methods); nobody decides what it does" % ", ".join(loose[:8])
+            rec["counterexample"] = {"methods": loose[:20]}
+        section["obligations"].append(rec)
+
+
 def main():
     ap = argparse.ArgumentParser()
     ap.add_argument("--prop", required=True)
@@ -212,6 +270,7 @@ def main():
     if want is None:
         sec2 = {"obligations": [], "errors": section["errors"]}
         closed_ownership_scan(sec2)
+        closed_coverage_scan(sec2, ctx)
         section["obligations"].extend(o for o in sec2["obligations"] if a.prop == "ALL" or a.prop in o["props"])
     section["trusted"].append("frame engine: provenance of symbolic terms; calls without a contract are treated as pure and fresh (listed in notes); "
                               "distinct access paths denote distinct objects")
